@@ -5,6 +5,7 @@ Base scenarios: (a) the C01 read families on lattice annotations (assignment onl
 of every chromosome (k in {1, 7, 255, 256, 257, 1000}) and reverse-complementing the genome with annotation and
 alignments mirrored.  Both runs are complete pipeline executions; outputs are compared after the inverse transform.
 """
+import collections
 import itertools
 import os
 import re
@@ -524,8 +525,76 @@ def penalty_order_level(depth):
     return n, bad
 
 
+def terminal_positions_level():
+    """the real IntronGraph.collect_terminal_positions on one or two reads (2-3 exons on a 40-position grid, tiny terminal exons
+       included) x every substitution of the first and of the last intron by an intron shifted by -3..3 at either site: the terminal
+       positions collected for the mirror image of the input must be the mirror image of those collected for the input"""
+    from src.intron_graph import IntronGraph
+    from types import SimpleNamespace
+    L = 41        # mirror: x -> L - x
+
+    def mirror_iv(iv):
+        return (L - iv[1], L - iv[0])
+
+    def collect(reads, cmap):
+        g = IntronGraph.__new__(IntronGraph)
+        g.params = SimpleNamespace(delta=1)
+        g.incoming_edges = collections.defaultdict(set)
+        g.outgoing_edges = collections.defaultdict(set)
+        g.intron_collector = SimpleNamespace(discarded_introns=set(), substitute=lambda v: cmap.get(v, v))
+        g.read_assignments = reads
+        pa, re_, pt, rs = g.collect_terminal_positions()
+        flat = lambda d: sorted((k, p, c) for k, v in d.items() for p, c in v.items())
+        return {"ends": flat(pa) + flat(re_), "starts": flat(pt) + flat(rs)}
+
+    def read(exons, strand, tail):
+        introns = [(exons[i][1] + 1, exons[i + 1][0] - 1) for i in range(len(exons) - 1)]
+        pi = SimpleNamespace(external_polya_pos=-1, internal_polya_pos=-1, external_polyt_pos=-1, internal_polyt_pos=-1)
+        if tail and strand == "+":
+            pi.external_polya_pos = exons[-1][1] + 1
+        if tail and strand == "-":
+            pi.external_polyt_pos = exons[0][0] - 1
+        return SimpleNamespace(multimapper=False, corrected_introns=introns, corrected_exons=list(exons), strand=strand, polya_info=pi)
+    exon_sets = []
+    for first_len in (1, 2, 4):
+        for last_len in (1, 2, 4):
+            exon_sets.append([(10, 10 + first_len - 1), (20, 23), (31 - last_len, 30)])
+            exon_sets.append([(10, 10 + first_len - 1), (31 - last_len, 30)])
+    bad = []
+    n = 0
+    import collections as _c
+    for exons in exon_sets:
+        introns = [(exons[i][1] + 1, exons[i + 1][0] - 1) for i in range(len(exons) - 1)]
+        for which in (0, -1):
+            for dl in range(-3, 4):
+                for dr in range(-3, 4):
+                    sub = (introns[which][0] + dl, introns[which][1] + dr)
+                    if sub[0] >= sub[1]:
+                        continue
+                    cmap = {introns[which]: sub} if sub != introns[which] else {}
+                    for strand in "+-":
+                        for tail in (0, 1):
+                            n += 1
+                            base = collect([read(exons, strand, tail)], cmap)
+                            m_exons = [mirror_iv(e) for e in reversed(exons)]
+                            m_map = {mirror_iv(k): mirror_iv(v) for k, v in cmap.items()}
+                            mir = collect([read(m_exons, "-" if strand == "+" else "+", tail)], m_map)
+                            back_ends = sorted((mirror_iv(k), L - p, c) for k, p, c in mir["starts"])
+                            back_starts = sorted((mirror_iv(k), L - p, c) for k, p, c in mir["ends"])
+                            if back_ends != base["ends"] or back_starts != base["starts"]:
+                                bad.append(((exons, which, dl, dr, strand, tail),
+                                            "read exons %s strand %s tail %d, %s intron substituted by %s: ends %s starts %s, the mirrored input gives "
+                                            "(mapped back) ends %s starts %s" % (exons, strand, tail, "first" if which == 0 else "last", sub,
+                                                                                base["ends"], base["starts"], back_ends, back_starts)))
+    return n, bad
+
+
 def run(ctx):
     quick = ctx.tier == "quick"
+    n_tp, bad_tp = terminal_positions_level()
+    for case_, msg in bad_tp[:3]:
+        ctx.violation("l0:terminal-positions-not-mirrored", msg, {"case": [list(map(list, case_[0]))] + list(case_[1:])})
+    ctx.note("L0 terminal positions: %d (read, substitution) cases through the real collect_terminal_positions, input vs mirror image" % n_tp)
     n_po, bad_po = penalty_order_level(3 if quick else 4)
     for seq, msg in bad_po[:3]:
         ctx.violation("l0:penalty-depends-on-event-order", msg, {"events": [t.name for t in seq]})
